@@ -591,3 +591,6 @@ def b_general(rng, tier):
         except Exception as ex:
             ok, det = False, repr(ex)
         yield ((round(lat, 3), round(de2, 3), round(ra2, 2), h0, round(theta0, 2)), ok, det)
+
+
+P.frame_check()
